@@ -128,6 +128,25 @@ fn release_length_universe() -> (Vec<V>, usize) {
     build_universe(&[0], &releases, &[None, Some(("rc", 1))], &[None, Some(5)], &[None], &[None])
 }
 
+/// local parts shaped like commit ids and other long identifiers, for every common-prefix length 1..=40: the part itself,
+/// and the part continued by one of two different characters (prefix-is-lower and "differs only at position L")
+fn prefix_local_universe() -> (Vec<V>, usize) {
+    use std::sync::OnceLock;
+    static NAMES: OnceLock<Vec<&'static str>> = OnceLock::new();
+    let names = NAMES.get_or_init(|| {
+        let mut v: Vec<&'static str> = vec![];
+        for base in ["g54c499aa1b2c3d4e5f60718293a4b5c6d7e8f90a", "54c499aa1b2c3d4e5f60718293a4b5c6d7e8f90ab", "nightlybuildfromthereleasebranchofproject"] {
+            for l in 1..=40usize { for tail in ["", "a", "b"] {
+                let s: &'static str = Box::leak(format!("{}{}", &base[..l], tail).into_boxed_str());
+                if !s.bytes().all(|b| b.is_ascii_digit()) && !v.contains(&s) { v.push(s); }
+            }}
+        }
+        v
+    });
+    let locals: Vec<Option<&'static str>> = std::iter::once(None).chain(names.iter().map(|s| Some(*s))).collect();
+    build_universe(&[0], &[vec![1, 0]], &[None], &[None], &[None], &locals)
+}
+
 fn universe(quick: bool) -> (Vec<V>, usize) {
     let epochs = [0u32, 1];
     let releases: Vec<Vec<u32>> = if quick { vec![vec![1], vec![1, 0, 1], vec![1, 1], vec![2]] } else { vec![vec![1], vec![1, 0, 1], vec![1, 1], vec![2], vec![1, 0, 0, 1], vec![0], vec![10]] };
@@ -273,6 +292,21 @@ fn main() {
     let s_pairs = s_pairs.merge(check_pairs(&ctx, &ul));
     let (ur, nr_versions) = release_length_universe();
     let s_pairs = s_pairs.merge(check_pairs(&ctx, &ur));
+    let (up, np_versions) = prefix_local_universe();
+    let s_pairs = s_pairs.merge(check_pairs(&ctx, &up));
+    // dense numeric sweeps: every value 0..=K in one field at a time, all ordered pairs per field
+    let k = if ctx.quick() { 1000usize } else { 4000 };
+    let mut s_pairs = s_pairs;
+    let mut sweep_states = 0u64;
+    for shape in ["{N}!1.0", "{N}.0", "1.{N}", "1.0.{N}", "1.0a{N}", "1.0rc{N}", "1.0.post{N}", "1.0.dev{N}", "1.0+{N}", "1.0+a.{N}", "1.0+{N}a", "{N}!{N}.{N}b{N}.post{N}.dev{N}+{N}"] {
+        let u: Vec<V> = (0..=k).filter_map(|n| {
+            let t = shape.replace("{N}", &n.to_string());
+            let r = rp::parse(&t).unwrap_or_else(|| machinery_error(&format!("model rejects {t:?}")));
+            match PEP440::from_str(&t) { Ok(z) => Some(V { z, r, text: t, vid: n }), Err(e) => { REJECTED.lock().unwrap().push((t.clone(), e.to_string())); None } }
+        }).collect();
+        sweep_states += u.len() as u64;
+        s_pairs = s_pairs.merge(check_pairs(&ctx, &u));
+    }
     let tri_n = if ctx.quick() { 150 } else { 400 };
     let stride = (u.len() / tri_n).max(1);
     // stride chosen odd relative to 5 spellings so that all spellings occur
@@ -290,13 +324,13 @@ fn main() {
     let all = s_pairs.clone().merge(s_tri).merge(s_mt);
     for (t, e) in REJECTED.lock().unwrap().iter() { ctx.violation("universe_member_rejected", format!("{t:?}"), json!({"kind":"member","text":t}), format!("the real parser rejects this spelling of a valid version: {e}")); }
     let mut cov = Coverage::default();
-    cov.states = (u.len() + ub.len() + ul.len() + ur.len()) as u64;
+    cov.states = (u.len() + ub.len() + ul.len() + ur.len() + up.len()) as u64 + sweep_states;
     cov.set("release_length_versions", nr_versions as u64);
     cov.transitions = all.get("pairs");
     cov.evaluations = all.get("pairs") + all.get("triples") + all.get("max_tag_sets");
     cov.traces_validated = cov.evaluations;
     cov.distinct_nontrivial = s_pairs.get("want_unequal") + s_pairs.get("same_version_spelling_pairs");
-    cov.rule = format!("{n_versions} abstract versions (epoch x release x pre x post x dev x local field universe), each written in 5 spellings (normal; upper case + long labels + -/_ separators; leading zeros + v; trailing .0.0 release + alternative labels + -N post; explicit epoch + .0 + implicit zero numbers) and parsed by the real parser = {} objects; ALL ordered pairs of objects vs the C11 key, spellings of one version must be ==; a second universe of {nb_versions} versions whose epoch / release / pre / post / dev numbers sit at 0 and 2^32-1 (all ordered pairs of its spellings as well); a third universe of {nl_versions} versions whose local parts are 31..300 characters long and share their prefix; a fourth universe of {nr_versions} versions whose release has 1..20, 33 and 65 numbers (all zero behind the first, or with a non-zero last number); all triples of a {}-element sub-universe; find_max_version_tag on all ordered selections of <=3 of {} objects. non-trivial = pairs that differ under the key or are distinct spellings of one version", u.len(), sub.len(), sub2.len());
+    cov.rule = format!("{n_versions} abstract versions (epoch x release x pre x post x dev x local field universe), each written in 5 spellings (normal; upper case + long labels + -/_ separators; leading zeros + v; trailing .0.0 release + alternative labels + -N post; explicit epoch + .0 + implicit zero numbers) and parsed by the real parser = {} objects; ALL ordered pairs of objects vs the C11 key, spellings of one version must be ==; a second universe of {nb_versions} versions whose epoch / release / pre / post / dev numbers sit at 0 and 2^32-1 (all ordered pairs of its spellings as well); a third universe of {nl_versions} versions whose local parts are 31..300 characters long and share their prefix; a fourth universe of {nr_versions} versions whose release has 1..20, 33 and 65 numbers (all zero behind the first, or with a non-zero last number); a fifth universe of {np_versions} versions whose local part is a commit-id-like or word-like identifier cut at every length 1..=40 and continued by one of two characters; dense sweeps of every number 0..=1000 (thorough 4000) in each of 12 positions (epoch, release numbers, pre / post / dev numbers, numeric and alphanumeric local parts), all ordered pairs per position; all triples of a {}-element sub-universe; find_max_version_tag on all ordered selections of <=3 of {} objects. non-trivial = pairs that differ under the key or are distinct spellings of one version", u.len(), sub.len(), sub2.len());
     cov.exhaustive = true;
     cov.samples = vec![json!({"a": u[7].text, "b": u[u.len()/2+3].text}), json!({"a": u[u.len()-1].text, "b": u[u.len()-4].text}), json!({"a": u[11].text, "b": u[13].text})];
     cov.set("clause_counts", all.to_json());
